@@ -137,6 +137,9 @@ func genC14(r *rand.Rand, idx int, tier string) *SolveCase {
 	if r.Intn(4) == 0 {
 		c.Cfg.NbMax = 4
 	}
+	if r.Intn(4) == 0 {
+		c.Cfg.Rst = 1 + r.Intn(6)
+	}
 	return c
 }
 
@@ -208,6 +211,9 @@ func runC14(e *emitter, idx int, c *SolveCase) {
 		s.CuttingPlanes = c.Cfg.CP
 		if c.Cfg.NbMax > 0 {
 			setNbMax(s, c.Cfg.NbMax)
+		}
+		if c.Cfg.Rst > 0 {
+			setRestart(s, c.Cfg.Rst)
 		}
 		st := s.Solve()
 		verdict = verdictCode(st)
